@@ -24,7 +24,7 @@ def run(chk):
     for r in recs[:1] + recs[-2:]:
         chk.sample({'source': from_atoms(r['i']), 'history': [E.show_op(e['op']) for e in r['h']], 'text_after': from_atoms(r['h'][-1]['obs']['t'])})
     srcs = c05.TWINS
-    traces = [E.random_history(rng, rng.choice(srcs), 8 if quick else 14, E.ALL_KINDS) for _ in range(150 if quick else 3000)]
+    traces = [E.random_history(rng, rng.choice(srcs), 8 if quick else 14, E.ALL_KINDS) for _ in range(800 if quick else 6000)]
     E.validate(chk, traces, 'C15')
     chk.exhaustive = False
     chk.assumptions += ['new material is always freshly parsed', '\\item is never renamed and nothing is renamed to item',
